@@ -227,7 +227,8 @@ def gen_mutation_case(r):
 
 
 # csv / ilist / pdc: the raw value may be a str / int (hashable) while the converted one is a mutable object
-VAL_KINDS = ("csv", "csv", "csv", "ilist", "ilist", "pdc", "pdc", "jl", "jd", "list", "set", "dict", "dc")
+# str: the string itself must arrive (leading / trailing / inner whitespace, case, empty) - nothing to write to
+VAL_KINDS = ("csv", "csv", "csv", "ilist", "ilist", "pdc", "pdc", "jl", "jd", "list", "set", "dict", "dc", "str")
 
 
 def raw_pool(kind, salt):
@@ -252,6 +253,9 @@ def raw_pool(kind, salt):
         return [{"a": salt}, {"b": salt, "c": 1}]
     if kind == "dc":
         return [{"n": salt, "items": [1]}, {"n": salt, "items": []}]
+    if kind == "str":
+        return [" s%d " % salt, "s%d\n" % salt, "s%d" % salt, "\ts%d" % salt, "S%d" % salt, "s %d" % salt,
+                "s%d\u00a0" % salt, ""]
     raise ValueError(kind)
 
 
@@ -350,7 +354,281 @@ def sprinkle(r, case):
     elif x < .23:
         for t in case["tasks"]:
             t["labels"] = {"decl": 50}
+    elif .27 <= x < .32:
+        add_wire(r, case, thin=True)
     return case
+
+
+# --------------------------------------------------------------------------- strings of unusual but legal shapes
+def _inner(b, ins):
+    k = max(1, len(b) // 2)
+    return b[:k] + ins + b[k:]
+
+
+_FULLWIDTH = {ord(c): ord(c) + 0xFEE0 for c in "0123456789"}
+# (class, name, function of the base string): variants a canonicalising implementation might fold onto the base
+STR_VARIANTS = [
+    ("ws", "trailing newline", lambda b: b + "\n"),
+    ("ws", "trailing CRLF", lambda b: b + "\r\n"),
+    ("ws", "leading space", lambda b: " " + b),
+    ("ws", "trailing space", lambda b: b + " "),
+    ("ws", "spaces on both sides", lambda b: "  " + b + "  "),
+    ("ws", "leading tab", lambda b: "\t" + b),
+    ("ws", "leading newline", lambda b: "\n" + b),
+    ("uws", "trailing no-break space", lambda b: b + "\u00a0"),
+    ("uws", "leading ideographic space", lambda b: "\u3000" + b),
+    ("uws", "trailing zero-width space", lambda b: b + "\u200b"),
+    ("case", "upper case", lambda b: b.upper()),
+    ("case", "lower case", lambda b: b.lower()),
+    ("case", "swapped case", lambda b: b.swapcase()),
+    ("inner", "inner space", lambda b: _inner(b, " ")),
+    ("inner", "inner double space", lambda b: _inner(b, "  ")),
+    ("inner", "inner newline", lambda b: _inner(b, "\n")),
+    ("inner", "dash for underscore", lambda b: b.replace("_", "-") if "_" in b else _inner(b, "-")),
+    ("uni", "decomposed form", lambda b: __import__("unicodedata").normalize("NFD", b)),
+    ("uni", "full-width digits", lambda b: b.translate(_FULLWIDTH)),
+    ("num", "leading zeros", lambda b: "00" + b),
+    ("long", "long, last character differs (a)", lambda b: b + "x" * 300 + "a"),
+    ("long", "long, last character differs (b)", lambda b: b + "x" * 300 + "b"),
+    ("esc", "trailing NUL", lambda b: b + "\x00"),
+    ("esc", "trailing backslash", lambda b: b + "\\"),
+    ("esc", "double quote inside", lambda b: _inner(b, '"')),
+]
+ID_BASES = ("invoice-%d", "m%d", "Job_%d", "zadanie-żółć-%d", "任务_%d", "café_%d", "%d", "a_B%d")
+NAME_BASES = ("pkg.jobs:send_mail", "Reports_Build", "task_0", "météo:fetch_1")
+LABEL_KEYS = ("note", "note ", " note", "Note", "no te", "note\n", "nóte", "")
+LABEL_VALUES = (" padded ", "line\n", "", "x", "X", "\tx", "x\u00a0", "a  b")
+
+
+def str_family(r, base, n, theme=None):
+    """n distinct strings: the base (mostly) and variants of it - of one class when a theme is given"""
+    pool = [v for v in STR_VARIANTS if theme is None or v[0] in theme] or list(STR_VARIANTS)
+    out = [base] if r.random() < .8 else []
+    guard = 0
+    while len(out) < n and guard < 60:
+        guard += 1
+        s = r.choice(pool)[2](base) if r.random() < .9 else r.choice(STR_VARIANTS)[2](base)
+        if s not in out:
+            out.append(s)
+    while len(out) < n:
+        out.append(base + "#%d" % len(out))
+    r.shuffle(out)
+    return out
+
+
+THEMES = (("ws",), ("ws",), ("ws", "uws"), ("uws",), ("case",), ("inner",), ("uni", "case"), ("long", "num"), ("esc", "ws"), None, None)
+
+
+def wire_form(r):
+    """how a hand-written message is laid out as JSON text (nothing of it changes what the message says)"""
+    return {"via": "raw", "order": r.randrange(1000), "ascii": r.random() < .5, "compact": r.random() < .5,
+            "lt": r.choice(["null", "null", "omit", "dict"])}
+
+
+def add_wire(r, case, thin=False):
+    """strings of unusual but legal shapes on the wire: task ids (distinct ones that differ only by surrounding / inner
+    whitespace, case, Unicode form, a very long common prefix, JSON escapes; the empty id), task names (two registered
+    tasks whose names differ that way), string labels (keys and values), a string argument - most messages written
+    by hand (json.dumps of a plain dict, as a producer that is not this Python client would)"""
+    msgs, tasks = case["msgs"], case["tasks"]
+    salt = case.get("salt") or r.randrange(1, 10 ** 6)
+    x = r.random()
+    p_raw = r.choice([1.0, 1.0, .8, .5]) if not thin else r.choice([1.0, .5, 0.0])
+    for m in msgs:
+        if r.random() < p_raw:
+            m["wire"] = wire_form(r)
+    if thin and x < .35:
+        return case                 # ordinary ids, hand-written bytes only
+    if not thin or x < .75:
+        ids = str_family(r, r.choice(ID_BASES) % salt, len(msgs), r.choice(THEMES))
+        if r.random() < .12:
+            ids[r.randrange(len(ids))] = ""
+        if len(ids) >= 3 and r.random() < .1:
+            ids[0] = ids[1]         # and one id on two deliveries
+        for m, s in zip(msgs, ids):
+            m.pop("tid", None)
+            m.pop("content", None)
+            m["tids"] = s
+    if r.random() < (.45 if not thin else .3):
+        names = str_family(r, r.choice(NAME_BASES), len(tasks), r.choice(THEMES[:8]))
+        for t, s in zip(tasks, names):
+            t["name"] = s
+    if r.random() < (.4 if not thin else .25):
+        shared = r.random() < .5
+        keys = r.sample(LABEL_KEYS, r.choice([1, 2, 2, 3]))
+        for m in msgs:
+            if m.get("nolabels") and r.random() < .7:
+                continue
+            ks = keys if shared else r.sample(LABEL_KEYS, r.choice([1, 2]))
+            m["slabels"] = {k: r.choice(LABEL_VALUES) for k in ks}
+    if has_odd_strings(case):
+        # a message with such strings is always written by hand: what it carries is then exactly what the plan says,
+        # whatever the sending side of taskiq would have made of it
+        for m in msgs:
+            if "wire" not in m:
+                m["wire"] = wire_form(r)
+    return case
+
+
+def has_odd_strings(case):
+    return any(k in m for m in case["msgs"] for k in ("tids", "slabels")) or any("name" in t for t in case["tasks"])
+
+
+def has_wire_strings(case):
+    return (any(k in m for m in case["msgs"] for k in ("tids", "slabels", "wire"))
+            or any("name" in t for t in case["tasks"]))
+
+
+def gen_wire_case(r):
+    """aimed at what an implementation could fold together while it parses a message: 2-5 deliveries (hand-written
+    bytes) to one or two tasks, concurrent or one after another, whose task ids / task names / label keys differ only
+    by characters a canonicalising parser would drop or fold; every read of every node and of the task function
+    must show exactly the strings the own message carried, and set_result must be called with exactly that id"""
+    nn = r.choice([1, 1, 2, 2, 3])
+    nodes = gen_graph(r, nn)
+    for n in nodes:
+        n["ctx"] = n["ctx"] or r.random() < .8
+    tasks = []
+    for t in range(r.choice([1, 1, 2])):
+        deps = [[r.randrange(nn), r.random() < .6] for _ in range(r.choice([0, 1, 1, 2]))]
+        tasks.append({"deps": deps, "ctx": r.random() < .9, "sync": r.random() < .12})
+    case = {"nodes": nodes, "tasks": tasks, "msgs": [], "propagate": r.random() < .5,
+            "ack": r.choice(["when_received", "when_executed", "when_saved", "when_saved"]),
+            "middleware": r.random() < .5, "via_inmemory": r.random() < .3, "user_ctx": r.choice([None, None, 7])}
+    k = r.choice([2, 2, 3, 3, 4, 5])
+    spacing = r.choice(["concurrent", "concurrent", "sequential", "mixed"])
+    for i in range(k):
+        t = r.randrange(len(tasks))
+        seq = spacing == "sequential" or (spacing == "mixed" and r.random() < .5)
+        m = {"task": t, "start": i * 400000 if seq else r.choice([0, 0, 2000, 5000, 10000]),
+             "pauses": [r.choice(PAUSES) for _ in range(r.choice([1, 2, 3]))],
+             "dur": [] if tasks[t]["sync"] else [r.choice([0, 1000, 5000, 12000, 30000]) for _ in range(r.choice([0, 1, 1, 2]))],
+             "ackable": r.choice(["sync", "sync", "async", "none"]), "kw": r.random() < .7,
+             "outcome": r.choice(["return", "return", "return", "raise", "noresult"])}
+        if r.random() < .15:
+            m["nolabels"] = True
+        if r.random() < .25:
+            m["save_pause"] = r.choice([0, 5000, 15000])
+        case["msgs"].append(m)
+    if r.random() < .3:
+        # a string argument too (validated against `str`: it must arrive as it is)
+        case["salt"] = r.randrange(1, 10 ** 6)
+        pool = raw_pool("str", case["salt"])
+        by0 = r.choice(["pos", "kw"])
+        for t in tasks:
+            t["val"] = "str"
+        for m in case["msgs"]:
+            m["raw"], m["by"] = r.choice(pool), by0
+        if r.random() < .2:
+            case["validate"] = False
+    add_wire(r, case)
+    for m in case["msgs"]:
+        if r.random() < .25:
+            gen_muts(r, case, m, 1)
+    return case
+
+
+def _strip_all(s):
+    return "".join(c for c in s if not c.isspace() and c not in "-_\u200b")
+
+
+def str_relation(a, b):
+    """how two DISTINCT strings are related, for the evidence (None: not in one of the tracked ways)"""
+    import unicodedata
+    if a == b:
+        return None
+    zw = "\u200b"
+    if a.strip() == b.strip():
+        return "surrounding whitespace"
+    if a.strip().strip(zw) == b.strip().strip(zw):
+        return "surrounding whitespace"
+    if a.casefold() == b.casefold():
+        return "case"
+    if unicodedata.normalize("NFKC", a) == unicodedata.normalize("NFKC", b):
+        return "Unicode form"
+    if _strip_all(a) == _strip_all(b):
+        return "inner whitespace / separator"
+    if a.rstrip("\x00\\") == b.rstrip("\x00\\") or a.replace('"', "") == b.replace('"', ""):
+        return "a character JSON escapes"
+    if a.lstrip("0") == b.lstrip("0"):
+        return "leading zeros"
+    n = 0
+    for x, y in zip(a, b):
+        if x != y:
+            break
+        n += 1
+    if n >= 64:
+        return "a long common prefix"
+    return None
+
+
+def str_shape(s):
+    """shape classes of one string, for the evidence"""
+    out = []
+    if s == "":
+        return ["empty"]
+    if s != s.strip():
+        out.append("surrounding whitespace" + (" (newline)" if s.strip(" \t\u00a0\u3000") != s.strip() else "")
+                   + (" (non-ASCII)" if s.strip(" \t\r\n") != s.strip() else ""))
+    if any(c.isspace() for c in s.strip()):
+        out.append("inner whitespace")
+    if "\u200b" in s:
+        out.append("zero-width space")
+    if len(s) > 200:
+        out.append("very long")
+    if any(ord(c) > 127 for c in s.strip().replace("\u200b", "")):
+        out.append("non-ASCII")
+    if any(c in s for c in '\x00\\"'):
+        out.append("JSON-escaped character")
+    return out or ["ordinary"]
+
+
+def wire_profile(case, ex):
+    """evidence keys: how the messages were written on the wire and which unusual strings they carried"""
+    keys = []
+    for d in ex:
+        w = d.msg.get("wire") or {}
+        if w.get("via") == "raw":
+            keys.append("wire: written by hand (JSON of a plain dict)%s" % ("" if w.get("ascii", True) else ", UTF-8 text"))
+        else:
+            keys.append("wire: TaskiqMessage through the broker's formatter")
+        if "tids" in d.msg:
+            keys += ["wire task id: " + k for k in str_shape(d.msg["tids"])]
+        for k, v in (d.msg.get("slabels") or {}).items():
+            keys += ["string label key: " + x for x in str_shape(k)]
+            keys += ["string label value: " + x for x in str_shape(v)]
+        if d.val is not None and d.val["kind"] == "str" and isinstance(d.val["raw"], str):
+            keys += ["string argument: " + x for x in str_shape(d.val["raw"])]
+    for t in case["tasks"]:
+        if "name" in t:
+            keys += ["task name: " + k for k in str_shape(t["name"])]
+    seen = set()
+    for a in range(len(case["tasks"])):
+        for b in range(a + 1, len(case["tasks"])):
+            rel = str_relation(task_name(case, a), task_name(case, b))
+            if rel and any(d.msg["task"] == a for d in ex) and any(d.msg["task"] == b for d in ex):
+                seen.add("two registered task names differing only by %s, both executed" % rel)
+    for a in ex:
+        for b in ex:
+            if a.i >= b.i:
+                continue
+            rel = str_relation(a.sent["tid"], b.sent["tid"])
+            if rel:
+                over = (None not in (a.cb_start_at, b.cb_start_at, a.cb_done_at, b.cb_done_at)
+                        and a.cb_start_at < b.cb_done_at and b.cb_start_at < a.cb_done_at)
+                seen.add("task ids differing only by %s: %s" % (rel, "overlapping" if over else "one after another"))
+            for ka in a.msg.get("slabels") or {}:
+                for kb in b.msg.get("slabels") or {}:
+                    rel = str_relation(ka, kb)
+                    if rel:
+                        seen.add("label keys of two messages differing only by %s" % rel)
+        ks = list(a.msg.get("slabels") or {})
+        for x in range(len(ks)):
+            for y in range(x + 1, len(ks)):
+                rel = str_relation(ks[x], ks[y])
+                if rel:
+                    seen.add("label keys of one message differing only by %s" % rel)
+    return keys + sorted(seen)
 
 
 LIVES = ([], [], ["startup"], ["startup"], ["startup", "shutdown", "startup"], ["startup", "shutdown", "startup"],
@@ -399,6 +677,10 @@ def add_path(r, case):
         case["path"] = {"kind": "api", "kwargs": kw}
     else:
         path = {"kind": "inmemory", "life": list(r.choice(LIVES)), "send": r.choice(["kick", "kicker"])}
+        if has_wire_strings(case):
+            # the strings are to reach the receiver exactly as the plan has them: the bytes the driver wrote go
+            # through the broker's kick(), not through the Python kicker (which builds its own message)
+            path["send"] = "kick"
         if r.random() < .4:
             path["max_async_tasks"] = r.choice([1, 2, 100])
         if r.random() < .25:
@@ -445,6 +727,8 @@ def gen_case(r):
         return add_path(r, gen_mutation_case(r))
     if x < .30:
         return add_path(r, gen_value_case(r))
+    if x < .355:
+        return add_path(r, gen_wire_case(r))
     return add_path(r, sprinkle(r, gen_plain_case(r)))
 
 
@@ -506,7 +790,14 @@ class Derived:
 
 
 def sent_tid(case, i):
-    return "m%d" % case["msgs"][i].get("tid", i)
+    """the task id delivery i carries on the wire (verbatim when the plan names one)"""
+    m = case["msgs"][i]
+    return m["tids"] if "tids" in m else "m%d" % m.get("tid", i)
+
+
+def task_name(case, t):
+    """the name task t is registered under and the messages for it carry"""
+    return case["tasks"][t].get("name", "task_%d" % t)
 
 
 def content(case, i):
@@ -522,6 +813,7 @@ def sent_state(case, i):
     labels = {} if m.get("nolabels") else {"who": c}
     if m.get("timeout") is not None and not m.get("nolabels"):
         labels["timeout"] = m["timeout"] / 1_000_000
+    labels.update(m.get("slabels") or {})
     args, kwargs = [c], ({"kw": c} if m.get("kw", True) else {})
     v = val_info(case, i)
     if v is not None:
@@ -529,7 +821,8 @@ def sent_state(case, i):
             args.append(json.loads(json.dumps(v["raw"])))
         else:
             kwargs["pv"] = json.loads(json.dumps(v["raw"]))
-    return {"tid": sent_tid(case, i), "args": args, "kwargs": kwargs, "labels": labels}
+    return {"tid": sent_tid(case, i), "name": task_name(case, m["task"]), "args": args, "kwargs": kwargs,
+            "labels": labels}
 
 
 def _ints(x):
@@ -676,6 +969,7 @@ def labels_own(obs, exp, declared):
 def state_own(obs, exp, declared, val=None, i=None):
     obs = settle_val(obs, exp, val, i)
     return (isinstance(obs, dict) and obs.get("tid") == exp["tid"] and obs.get("args") == exp["args"]
+            and obs.get("name", exp["name"]) == exp["name"]
             and obs.get("kwargs") == exp["kwargs"] and labels_own(obs.get("labels"), exp["labels"], declared))
 
 
@@ -695,6 +989,8 @@ def echo_owner(case, echo, reader):
     s = sent_state(case, j)
     lab, kws = echo.get("labels") or {}, echo.get("kwargs") or {}
     if echo.get("tid") != s["tid"] or lab.get("who") != s["labels"].get("who") or kws.get("kw") != s["kwargs"].get("kw"):
+        return None
+    if echo.get("name", s["name"]) != s["name"]:
         return None
     val = val_info(case, j)
     rest = a[1:]
@@ -1045,7 +1341,8 @@ def oracle_c06(case, d, all_execs):
             foreign = (not isinstance(echo, dict) or echo.get("tid") != view["tid"]
                        or (echo.get("args") or [None])[0] != view["args"][0]
                        or (echo.get("labels") or {}).get("who") != view["labels"].get("who")
-                       or (echo.get("kwargs") or {}).get("kw") != view["kwargs"].get("kw"))
+                       or (echo.get("kwargs") or {}).get("kw") != view["kwargs"].get("kw")
+                       or echo.get("name", view["name"]) != view["name"])
             if foreign:
                 out.append(("%s of one execution observed another message's Context" % who,
                             dict(execution=i, reader=what, saw=echo, at=g), copy.deepcopy(view), {"kind": "context"}))
@@ -1078,6 +1375,11 @@ def oracle_c06(case, d, all_execs):
         if p.get("arg") != d.sent["args"][0] or p.get("kw") != d.sent["kwargs"].get("kw", -1):
             out.append(("the task function received another message's arguments",
                         dict(execution=i, arg=p.get("arg"), kw=p.get("kw")), dict(arg=d.sent["args"][0]), {"kind": "args"}))
+        if p.get("task") != d.msg["task"]:
+            out.append(("a message was executed by a task function other than the one its own message names",
+                        dict(execution=i, ran="task_%s (registered as %r)" % (p.get("task"), task_name(case, p["task"])
+                             if isinstance(p.get("task"), int) and 0 <= p["task"] < len(case["tasks"]) else None)),
+                        dict(task=d.msg["task"], name=d.sent["name"]), {"kind": "task"}))
     for g, tid, s in d.saves:
         payload = s.get("ret") if not s.get("is_err") else s.get("err_payload")
         bad = tid != d.sent["tid"] or s.get("who") != d.sent["labels"].get("who")
@@ -1141,6 +1443,7 @@ def sharing_profile(case, ex):
                     seen.add("label write, then read by another label-less execution of the same task")
     keys += sorted(seen)
     keys += value_profile(case, ex)
+    keys += wire_profile(case, ex)
     tids = {}
     for d in ex:
         tids.setdefault(d.sent["tid"], []).append(d)
@@ -1362,6 +1665,29 @@ def reductions(case):
             variant(unval)
             if m.get("by", "pos") != "pos":
                 variant(lambda c, i=i: c["msgs"][i].update(by="pos"))
+    def odd_needs_raw(c):
+        # messages carrying unusual strings stay hand-written (see add_wire)
+        return not (has_odd_strings(c) and any("wire" not in m for m in c["msgs"]))
+
+    if any("wire" in m for m in case["msgs"]):
+        variant(lambda c: ([m.pop("wire", None) for m in c["msgs"]] and None) or odd_needs_raw(c))
+    for i, m in enumerate(case["msgs"]):
+        for key in ("slabels", "wire"):
+            if key in m:
+                variant(lambda c, i=i, key=key: (c["msgs"][i].pop(key) and None) or odd_needs_raw(c))
+        if m.get("wire") and m["wire"] != {"via": "raw"}:
+            variant(lambda c, i=i: c["msgs"][i].update(wire={"via": "raw"}))
+        if "tids" in m:
+            # back to the ordinary id of that delivery, or to a plain spelling of the same id
+            variant(lambda c, i=i: c["msgs"][i].pop("tids"))
+            if len(m["tids"]) > 40:
+                variant(lambda c, i=i: c["msgs"][i].update(tids=c["msgs"][i]["tids"][:8] + c["msgs"][i]["tids"][-1:]))
+        if len(m.get("slabels") or {}) > 1:
+            for k in m["slabels"]:
+                variant(lambda c, i=i, k=k: c["msgs"][i]["slabels"].pop(k))
+    for t in range(len(case["tasks"])):
+        if "name" in case["tasks"][t]:
+            variant(lambda c, t=t: c["tasks"][t].pop("name"))
     if case.get("validate") is False:
         variant(lambda c: c.pop("validate"))
     if any("tid" in m for m in case["msgs"]):
